@@ -121,6 +121,32 @@ def bc(a, shape):
     return np.broadcast_to(np.asarray(a), shape)
 
 
+def acceptance_vs_model(ctx, scene, cfg, wl, mats):
+    """real stability measure and emitted warnings vs the model's measure / warns"""
+    from .common import f2h, h2f
+    m = M()
+    dt = cfg.time_step_duration
+    for name, mat in mats.items():
+        if mat.dispersion is None:
+            continue
+        real, _ = m["mats"]._coupled_dispersive_stability_measure(mat, dt, scene["cf"])
+        cc = m["fdtdx"].compute_pole_coefficients_tensor(mat.dispersion.poles, dt)
+        per_axis = []
+        for ax in range(3):
+            parts = [f2h(scene["cf"]), f2h(mat.permittivity[4 * ax]), f2h(mat.permeability[4 * ax])]
+            for i in range(len(mat.dispersion.poles)):
+                parts += [f2h(cc[0][i, ax]), f2h(cc[1][i, ax]), f2h(cc[2][i, 4 * ax]), f2h(cc[3][i, 4 * ax]), f2h(0.0), f2h(0.0)]
+            per_axis.append(" ".join(parts))
+        reps = ctx.driver.ask_many(["measure " + p for p in per_axis] +
+                                   ["warns " + " ".join(p.split(" ")[:3] + [f2h(0.01)] + p.split(" ")[3:]) for p in per_axis])
+        mm = max(h2f(r) for r in reps[:3])
+        ctx.expect_close("measure", {"scene": scene, "material": name}, [real], [mm], tol=1e-9)
+        mw = any(r == "1" for r in reps[3:])
+        rw = any(("'" + name + "'") in x and "coupled field/polarization" in x for x in wl)
+        if abs(mm - 0.99) > 1e-9:
+            ctx.expect_equal("warns", {"scene": scene, "material": name, "measure": mm}, rw, mw)
+
+
 # ------------------------------------------------------------------------------ K: per-cell steps
 def check_scene(ctx, scene):
     """steps the real `forward`, compares every cell with the model, evaluates the oracles.
@@ -215,28 +241,7 @@ def check_scene(ctx, scene):
             mod = h2fs(rep)
             impl = [float(h[j]) for h in hist_P]
             ctx.expect_close("pTraj", {"scene": scene, "cell": list(j)}, impl, mod, tol=1e-9, floor=max(1e-3, max(abs(x) for x in mod)))
-    # ---------------- acceptance: measure and warning vs model
-    dt = cfg.time_step_duration
-    for name, mat in mats.items():
-        if mat.dispersion is None:
-            continue
-        real, _ = m["mats"]._coupled_dispersive_stability_measure(mat, dt, scene["cf"])
-        cc = m["fdtdx"].compute_pole_coefficients_tensor(mat.dispersion.poles, dt)
-        per_axis = []
-        for ax in range(3):
-            parts = [f2h(scene["cf"]), f2h(mat.permittivity[4 * ax]), f2h(mat.permeability[4 * ax])]
-            for i in range(len(mat.dispersion.poles)):
-                parts += [f2h(cc[0][i, ax]), f2h(cc[1][i, ax]), f2h(cc[2][i, 4 * ax]), f2h(cc[3][i, 4 * ax]), f2h(0.0), f2h(0.0)]
-            per_axis.append(" ".join(parts))
-        reps = ctx.driver.ask_many(["measure " + p for p in per_axis] +
-                                   ["warns " + " ".join(p.split(" ")[:3] + [f2h(0.01)] + p.split(" ")[3:]) for p in per_axis])
-        from .common import h2f
-        mm = max(h2f(r) for r in reps[:3])
-        ctx.expect_close("measure", {"scene": scene, "material": name}, [real], [mm], tol=1e-9)
-        mw = any(r == "1" for r in reps[3:])
-        rw = any(("'" + name + "'") in x and "coupled field/polarization" in x for x in wl)
-        if abs(mm - 0.99) > 1e-9:
-            ctx.expect_equal("warns", {"scene": scene, "material": name, "measure": mm}, rw, mw)
+    acceptance_vs_model(ctx, scene, cfg, wl, mats)
     return viol
 
 
@@ -479,7 +484,15 @@ def run(ctx):
         sc = {"cf": cf, "shape": [4, 4, 4], "seed": ctx.rng.randint(0, 999), "steps": 0, "bg": {"eps": eps, "poles": poles}}
         if i % 4 == 3:          # dispersive block in vacuum instead of a homogeneous box
             sc = dict(sc, bg={"eps": 1.0, "poles": None}, block={"size": [2, 4, 2], "at": [1, 0, 1], "mat": {"eps": eps, "poles": poles}})
+        if i == 0:      # just below the bound: stable, but the transient gain exceeds 10 -> must not be accepted silently
+            sc = {"cf": 0.99, "shape": [4, 4, 4], "seed": 0, "steps": 0, "bg": {"eps": 1.0, "poles": [{"kind": "dru", "wp": 0.2805, "g": 0.0}]}}
+            tg = 0.9998
         ctx.impl_property_evals += 1
+        try:
+            _oc, _arr, _cfg, _wl, _mats = build(sc)
+            acceptance_vs_model(ctx, sc, _cfg, _wl, _mats)
+        except (ValueError, NotImplementedError):
+            pass
         d, how = bounded_fail(sc)
         ctx.case(nontrivial=("bound", i), op="bounded", target=tg, accepted=how)
         if tg > 1.02 and how == "silent" and not d:
@@ -514,6 +527,18 @@ def search(ctx, hints):
                 ctx.violation({"kind": "scene", "scene": sc}, d)
                 return
     rng = ctx.rng.fork()
+    # first clause, directed: conductive zero-coefficient cells next to conductive dispersive ones, every tier
+    for i, tier in enumerate(["c4", "iso", "axes", "c4", "iso", "axes"]):
+        disp = gen_material(rng, tier, True)
+        plain = gen_material(rng, tier, False)
+        disp["sigma"], plain["sigma"] = rng.uniform(1e4, 1e5), rng.uniform(1e4, 1e5)
+        sc = {"cf": rng.uniform(0.4, 0.99), "shape": [3, 3, 3], "seed": i, "steps": 3, "tier": tier, "layout": "directed",
+              "bg": disp if i < 3 else plain, "block": {"size": [1, 2, 1], "at": [1, 0, 1], "mat": plain if i < 3 else disp}}
+        ctx.impl_property_evals += 1
+        d = replay(ctx, {"kind": "scene", "scene": sc})
+        if d:
+            ctx.violation({"kind": "scene", "scene": sc}, d)
+            return
     # first clause: small scenes first
     for i in range(ctx.scale(12, 60)):
         sc = gen_scene(rng, i)
